@@ -37,7 +37,7 @@ ATOMS = {
     'template': [MOL, ('m_template', 'i', (), None), ('a_template', 'i', (), None)],
     'wavepacket': [Q, ('espin', 'i', (), None), ('eradius', 'f', (), 'length'), ('e_id', 'i', (), None),
                    ('cs_re', 'f', (), None), ('cs_im', 'f', (), None)],
-    # listed by the writer, but it asks its unit table for a 'volume' entry that no unit style defines
+    # volume column: (length unit)^3
     'peri': [('volume', 'f', (), 'volume'), DENS],
     'smd': [MOL, ('volume', 'f', (), 'volume'), ('mass', 'f', (), 'mass'), ('kradius', 'f', (), 'length'),
             ('cradius', 'f', (), 'length')],
@@ -53,7 +53,6 @@ VELOCITIES = {
 # hybrid: "atom-ID atom-type x y z sub-style1 sub-style2 ..." - columns of the sub-styles not already present
 HYBRIDS = ['hybrid sphere dipole', 'hybrid charge molecular', 'hybrid full ellipsoid']
 
-UNSUPPORTED = ('peri', 'smd')            # the writer's table raises KeyError('volume') for these in every unit style
 STYLES = ['atomic', 'charge', 'full', 'dipole', 'sphere', 'ellipsoid', 'electron', 'molecular', 'body', 'angle',
           'bond', 'line', 'tri', 'meso', 'template', 'wavepacket', 'peri', 'smd'] + HYBRIDS
 
